@@ -183,7 +183,32 @@ def zsteps_conformance():
     return out, n, pinned
 
 
+def judge_forms(f):
+    """input forms for the batch entry point: (angle, altitude, energy, latitude, longitude) as narrower arrays"""
+    import dask
+
+    from nuspacesim.simulation.atmosphere.clouds import CloudTopHeight
+    from nuspacesim.simulation.eas_optical.cphotang import CphotAng
+
+    from .. import forms, own, sim
+
+    cols = [np.array([math.radians(5.0), math.radians(20.0), 0.0, 0.5]), np.array([2.0, 8.0, 0.0, 4.0]), np.array([1.0, 10.0, 100.0, 3.0]), np.array([0.0, 1.0, -1.0, 0.0]), np.array([0.0, 2.0, -3.0, 1.0])]
+    cl = CloudTopHeight(sim.make_config(cloud="map"))
+
+    def kcall(*x):
+        with own.null_progress(), dask.config.set(scheduler="synchronous"), np.errstate(all="ignore"):
+            return CphotAng(525.0)(*x, cl)
+
+    return forms.judge(kcall, cols, tuple(f), what="CphotAng.__call__")
+
+
 def run(ctx):
+    from .. import forms as _forms
+
+    for f in _forms.product(5, per_array=("f4", "i8")):
+        ctx.tick(4, ("forms", f))
+        for c, e, o in judge_forms(f):
+            ctx.violation(c, {"kind": "forms", "forms": list(f)}, e, o)
     tier = ctx.tier
     bs, als, Es = beta_alphabet(tier), alt_alphabet(tier), energy_alphabet(tier)
     evs = list(itertools.product(bs, als, Es))
@@ -251,6 +276,8 @@ def run(ctx):
 
 def replay(case):
     k = case["kind"]
+    if k == "forms":
+        return judge_forms(case["forms"])
     if k == "event":
         ev = tuple(case["ev"])
         return judge_event(ev, evaluate(ev))
